@@ -4,6 +4,8 @@ import (
 	"bytes"
 	"encoding/json"
 	"fmt"
+	"os"
+	"os/exec"
 	"sort"
 	"strings"
 
@@ -431,6 +433,15 @@ var c19SharePrograms = []struct{ name, src string }{
 	{"exit", `{ if (NR == 2) exit 3; print }`},
 }
 
+// C19ShareSources is used by cmd/vrace (free-running -race pass).
+func C19ShareSources() []string {
+	var out []string
+	for _, sp := range c19SharePrograms {
+		out = append(out, sp.src)
+	}
+	return out
+}
+
 type c19ShareObs struct {
 	outs   []string
 	panics []string
@@ -514,10 +525,53 @@ func c19Sharing(c *core.Ctx) {
 	}
 }
 
+// c19RacePass runs the free-running -race binary (cmd/vrace) once, on shard 0.
+// Supplementary: it samples schedules, so silence decides nothing; a report is
+// a violation of "without data races".
+func c19RacePass(c *core.Ctx) {
+	if c.Shard != 0 {
+		return
+	}
+	bin := os.Getenv("VERIF_VRACE")
+	if bin == "" {
+		c.Note("race_pass", "not run (no -race binary built)")
+		return
+	}
+	tier := "quick"
+	if c.Thorough() {
+		tier = "thorough"
+	}
+	cmd := exec.Command(bin, tier)
+	cmd.Env = append(os.Environ(), "GORACE=halt_on_error=0 exitcode=0", "GOMAXPROCS=8")
+	out, err := cmd.CombinedOutput()
+	text := string(out)
+	races := strings.Count(text, "WARNING: DATA RACE")
+	differs := strings.Count(text, "RESULT-DIFFERS")
+	panics := strings.Count(text, "PANIC program=") + strings.Count(text, "fatal error:")
+	last := ""
+	if lines := strings.Split(strings.TrimSpace(text), "\n"); len(lines) > 0 {
+		last = lines[len(lines)-1]
+	}
+	c.Note("race_pass", fmt.Sprintf("free-running -race pass (supplementary, sampled schedules): %s; data_race_reports=%d result_differs=%d panics=%d", last, races, differs, panics))
+	cs := c19Case{Part: "race", Name: "free-running -race pass"}
+	switch {
+	case races > 0:
+		i := strings.Index(text, "WARNING: DATA RACE")
+		c.Fail("race:data-race-between-executions-sharing-a-Program", cs, trunc(text[i:], 1500))
+	case panics > 0:
+		c.Fail("race:panic-in-concurrent-executions", cs, trunc(text, 1500))
+	case differs > 0:
+		c.Fail("race:concurrent-execution-result-differs", cs, trunc(text, 1500))
+	case err != nil:
+		panic("C19 harness: race pass failed to run: " + err.Error() + ": " + trunc(text, 500))
+	}
+}
+
 func c19Run(c *core.Ctx) {
 	c19MapOrders(c)
 	c19Immutability(c)
 	c19Sharing(c)
+	c19RacePass(c)
 }
 
 func c19Replay(c *core.Ctx, raw json.RawMessage) {
@@ -546,6 +600,9 @@ func c19Replay(c *core.Ctx, raw json.RawMessage) {
 			return
 		}
 		c19ImmutableEval(c, c01Dir(c), prog, cs)
+	case "race":
+		c.Shard = 0
+		c19RacePass(c)
 	case "sharing":
 		funcs := map[string]any{"nat": func(x float64) float64 { return x * 10 }}
 		inputs := []string{"a b\nb c\n", "abc 2\n"}
@@ -571,7 +628,7 @@ func init() {
 		Assumptions: []string{
 			"Go map iteration order is owned through the overlay's rewrite of every map range to vhook.Keys; orders explored are a menu per site execution, not all n! for n>3",
 			"package-level variables are registered by an init() the overlay generates from go/types' package scopes; an idempotent lazy initialisation (same value after both rounds) is not reported, any other run-time write to package-level state is",
-			"absence of data races proper is not decided here (cooperative scheduling creates happens-before edges); the exhaustive part shows absence of writes to the shared Program and interleaving-independence at instruction granularity",
+			"absence of data races proper is not decided by the exhaustive parts (cooperative scheduling creates happens-before edges); they show absence of writes to the shared Program / package-level state and interleaving-independence at instruction granularity. A supplementary free-running pass (cmd/vrace, built with -race, 6 [12] goroutines x 8 [40] rounds per sharing program plus concurrent parses) reports Go race-detector findings; it samples schedules and its silence is not counted in states/transitions",
 		},
 		Run:    c19Run,
 		Replay: c19Replay,
